@@ -526,7 +526,7 @@ pub fn run(ctx: &mut Ctx, args: &Args) {
     phase_t.push(("jumps-low".into(), ctx.elapsed_s()));
     // ---------------- phase 4: threads
     let sidecar_bumps = AtomicU64::new(0);
-    let n_rounds = ctx.tier.pick(60, 400);
+    let n_rounds = ctx.tier.pick(160, 1600);
     // light inputs for most rounds, heavy ones regularly
     let mut by_cost: Vec<usize> = usable.clone();
     by_cost.sort_by_key(|i| chk.refs[*i].as_ref().unwrap().bytes.len());
